@@ -390,3 +390,134 @@ def mirror_two_steps(first: int, second: int, dv: int, sv: int, mv: int, val: st
     except Exception as ex:  # noqa: BLE001
         return exc_result(orc, ex)
     return orc.result()
+
+
+# ------------------------------------------------------------------------------------------------ two arbitrary kinds in a row
+
+def _new_metric(pm, handle, parent='ch0'):
+    nm = dc.StringMetricDescriptorContainer(handle, parent)
+    nm.Unit = pm_types.CodedValue('u')
+    nm.MetricCategory = pm_types.MetricCategory.MEASUREMENT
+    nm.MetricAvailability = pm_types.MetricAvailability.CONTINUOUS
+    return nm, pm.data_model.get_state_class_for_descriptor(nm)(nm)
+
+
+def _tx(pm, code, val, flag, sel, suffix):
+    """One provider transaction chosen by `code` (0-8 state kinds, 10-19 descriptor kinds); API rejections propagate."""
+    if code == 0:
+        with pm.metric_state_transaction(set_determination_time=False) as tr:
+            st = tr.get_state('m0')
+            if st.MetricValue is None:
+                st.mk_metric_value()
+            st.MetricValue.Value = val + suffix
+    elif code == 1:
+        with pm.metric_state_transaction(set_determination_time=False) as tr:
+            st = tr.get_state('m1')
+            if st.MetricValue is None:
+                st.mk_metric_value()
+            st.MetricValue.Value = val
+    elif code == 2:
+        with pm.alert_state_transaction(set_determination_time=False) as tr:
+            tr.get_state('ac0').Presence = flag
+    elif code == 3:
+        with pm.component_state_transaction() as tr:
+            tr.get_state('vmd0').OperatingCycles = 7 if flag else 8
+    elif code == 4:
+        with pm.operational_state_transaction() as tr:
+            tr.get_state('op0').OperatingMode = pm_types.OperatingMode.DISABLED if flag else pm_types.OperatingMode.NA
+    elif code == 5:
+        with pm.context_state_transaction() as tr:
+            st = tr.mk_context_state('pc0', 'pcs_new' + suffix, set_associated=flag)
+            st.CoreData = pm_types.PatientDemographicsCoreData()
+            st.CoreData.Givenname = val
+    elif code == 6:
+        with pm.context_state_transaction() as tr:
+            st = tr.get_context_state('pcs0')
+            st.ContextAssociation = pick(sel, ASSOC_POOL)
+    elif code == 7:
+        with pm.context_state_transaction() as tr:
+            tr.get_context_state('lcs0').ContextAssociation = pick(sel, ASSOC_POOL)
+            tr.get_context_state('lcs1').LocationDetail.Bed = val
+    elif code == 8:
+        pm.xtra.set_location(SdcLocation(fac='f', poc='p', bed='b' + suffix))
+    elif code == 10:
+        with pm.descriptor_transaction() as tr:
+            tr.get_descriptor('ac0').Source = list(pick(sel, (('m1',), ('m0', 'm1'), (), ('m0',))))
+    elif code == 11:
+        with pm.descriptor_transaction() as tr:
+            tr.get_descriptor('asig0').ConditionSignaled = pick(sel, (None, 'ac0', 'other', 'ac0'))
+    elif code == 12:
+        with pm.descriptor_transaction() as tr:
+            tr.get_descriptor('m0').Type = pm_types.CodedValue((val or 'c') + suffix)
+            st = tr.get_state('m0')
+            if st.MetricValue is None:
+                st.mk_metric_value()
+            st.MetricValue.Value = val
+    elif code == 13:
+        with pm.descriptor_transaction() as tr:
+            nd, ns = _new_metric(pm, 'm9' + suffix)
+            tr.add_descriptor(nd, state_container=ns)
+    elif code == 14:
+        with pm.descriptor_transaction() as tr:
+            tr.remove_descriptor('m1')
+    elif code == 15:
+        with pm.descriptor_transaction() as tr:
+            tr.remove_descriptor('vmd0')
+    elif code == 16:
+        with pm.descriptor_transaction() as tr:
+            tr.get_descriptor('lc0').SafetyClassification = pm_types.SafetyClassification.MED_A if flag else pm_types.SafetyClassification.MED_B
+    elif code == 17:
+        with pm.descriptor_transaction() as tr:
+            nch = dc.ChannelDescriptorContainer('ch9' + suffix, 'vmd0')
+            tr.add_descriptor(nch, state_container=pm.data_model.get_state_class_for_descriptor(nch)(nch))
+            nd, ns = _new_metric(pm, 'm8' + suffix, 'ch9' + suffix)
+            tr.add_descriptor(nd, state_container=ns)
+    elif code == 18:
+        with pm.descriptor_transaction() as tr:
+            nd, ns = _new_metric(pm, 'm8' + suffix)
+            tr.add_descriptor(nd, state_container=ns)
+            nd2, ns2 = _new_metric(pm, 'm7' + suffix)
+            tr.add_descriptor(nd2, state_container=ns2)
+    else:
+        with pm.descriptor_transaction() as tr:
+            tr.remove_descriptor('lc0')
+
+
+TX_CODES = (0, 1, 2, 3, 4, 5, 6, 7, 8, 10, 11, 12, 13, 14, 15, 16, 17, 18, 19)
+
+
+def mirror_two_kinds(c1: int, c2: int, dv: int, sv: int, mv: int, csv: int, val: str, flag: bool, sel: int) -> str:
+    """
+    Two consecutive provider transactions of ARBITRARY kinds (19 kinds each: 9 state kinds, 10 descriptor kinds incl. deletions);
+    the consumer processes the reports of each in emission order; mirror compared after each. A second transaction that the API
+    rejects (its target was deleted by the first) must leave both MDIBs unchanged.
+    pre: 0 <= c1 < 19
+    pre: 0 <= c2 < 19
+    pre: dv >= 0
+    pre: sv >= 0
+    pre: mv >= 0
+    pre: csv >= 0
+    pre: len(val) <= 2
+    pre: 0 <= sel < 4
+    post: __return__ == 'ok'
+    """
+    orc = Oracle()
+    try:
+        k1, k2 = pick(c1, TX_CODES), pick(c2, TX_CODES)
+        pm, cap, cm = _pair(dv, sv, mv, csv, 'm0', operations=True)
+        n = 0
+        for step, code in ((1, k1), (2, k2)):
+            before = pm.mdib_version
+            try:
+                _tx(pm, code, val, flag, sel, str(step))
+            except (KeyError, ValueError) as ex:      # the API rejected the call (e.g. handle deleted by step 1)
+                if step == 1:
+                    raise
+                orc.check(pm.mdib_version == before, f'step{step}:rejected-transaction-changed-mdib-version')
+                del ex
+            _deliver_all(cap, cm, n)
+            n = len(cap.sent)
+            _compare(pm, cm, orc, f'step{step}')
+    except Exception as ex:  # noqa: BLE001
+        return exc_result(orc, ex)
+    return orc.result()
